@@ -101,6 +101,7 @@ var runLens = []int{1, 2, 3, 4, 7, 8, 15, 16, 17, 31, 32, 33, 47, 63, 64, 65, 70
 // Plan describes how a class string is concretised.
 type Plan struct {
 	Stretch bool // expand stretchable classes to runs
+	Digits  bool // expand a d1 to 1..3 digits (stays inside the same number / string / junk position)
 	Lead    int  // leading blanks
 	Trail   int  // trailing blanks
 }
@@ -111,6 +112,7 @@ func Concrete(classes []string, p Plan, r *rand.Rand) (out []byte, seg [][2]int)
 		out = append(out, blank(r))
 	}
 	seg = make([][2]int, len(classes))
+	inExp := false
 	for i, c := range classes {
 		st := len(out)
 		n := 1
@@ -119,6 +121,19 @@ func Concrete(classes []string, p Plan, r *rand.Rand) (out []byte, seg [][2]int)
 		}
 		for k := 0; k < n; k++ {
 			out = append(out, One(c, r)...)
+		}
+		// digits of an exponent are never multiplied (numeric range is not what stretching is for)
+		switch c {
+		case "le", "ue":
+			inExp = i > 0 && (classes[i-1] == "d0" || classes[i-1] == "d1")
+		case "d0", "d1", "pl", "mi":
+		default:
+			inExp = false
+		}
+		if p.Digits && c == "d1" && r != nil && !inExp {
+			for k := r.Intn(3); k > 0; k-- {
+				out = append(out, byte('0'+r.Intn(10)))
+			}
 		}
 		seg[i] = [2]int{st, len(out)}
 	}
